@@ -18,7 +18,7 @@ import numpy as np
 import core
 import comp_common as cc
 
-FIXTURE_AREA = 700 * 700
+FIXTURE_AREA = 1100 * 1100
 FIXTURE_PIXELS = 160
 NAMED_FIXTURES = ["clipping-mask.psd", "clipping-mask2.psd", "group.psd", "masks.psd", "masks2.psd", "masks3.psd"]
 
@@ -234,13 +234,13 @@ def fixtures(ctx, st):
         reason = None
         if len(psd) == 0:
             reason = "no layers"
-        elif psd.width * psd.height > FIXTURE_AREA:
-            reason = "canvas larger than 700x700"
         else:
             try:
                 xd = cc.XDoc(psd, check_scope=True)
             except cc.OutOfScope as e:
                 reason = "outside the modelled scope: " + str(e)
+            if reason is None and psd.width * psd.height > FIXTURE_AREA:
+                reason = "canvas larger than 1100x1100"
         if reason:
             skipped[reason] = skipped.get(reason, 0) + 1
             if os.path.basename(f) in NAMED_FIXTURES:
